@@ -5,9 +5,60 @@ from .fsharness import run_histories
 RULE = "a case is one executed operation of a random history; non-trivial/distinct = distinct (operation kind, variant) pairs that actually executed"
 
 
+def stale_cache_scenarios():
+    """the persistent cache lags behind the workspace (jobs added / removed / re-keyed by a session that did not update it); in a
+    fresh session each first cache-touching call must still give exact answers, and update_cache must make the file exact"""
+    import gzip
+    import json
+    import os
+    import signac
+    from .common import dir_scratch
+    out = []
+    for change in ("added", "removed", "both", "none"):
+        for first in ("update_cache", "len", "find", "open-by-id"):
+            with dir_scratch() as d:
+                pp = os.path.join(d, "p")
+                os.makedirs(pp)
+                p = signac.init_project(pp)
+                jobs = [p.open_job({"a": i}).init() for i in range(4)]
+                p.update_cache()
+                q = signac.Project(pp)
+                if change in ("added", "both"):
+                    q.open_job({"a": 10}).init()
+                if change in ("removed", "both"):
+                    q.open_job({"a": 0}).remove()
+                want = sorted(j.id for j in signac.Project(pp))
+                s = signac.Project(pp)           # the fresh session under test
+                if first == "len":
+                    len(s)
+                elif first == "find":
+                    got = sorted(j.id for j in s.find_jobs({"a": {"$gte": 0}}))
+                    if got != want:
+                        out.append((f"stale:{change}:{first}", f"workspace {change}: find_jobs in a fresh session returns {got}, workspace holds {want}"))
+                elif first == "open-by-id":
+                    for i in want:
+                        s.open_job(id=i).statepoint()
+                r1 = s.update_cache()
+                fn = os.path.join(pp, ".signac", "statepoint_cache.json.gz")
+                on_disk = sorted(json.loads(gzip.open(fn, "rb").read().decode()))
+                if on_disk != want:
+                    out.append((f"stale:{change}:{first}:file", f"workspace {change}, first call {first}: after update_cache() the cache file lists {len(on_disk)} ids, the workspace holds {len(want)}"))
+                r2 = s.update_cache()
+                if r2 is not None:
+                    out.append((f"stale:{change}:{first}:second", f"workspace {change}, first call {first}: a second update_cache() reports {r2!r} instead of nothing to do"))
+                if change == "none" and r1 is not None and first == "update_cache":
+                    out.append((f"stale:{change}:{first}:first", f"an exact cache file is reported as updated ({r1!r})"))
+    return out
+
+
 def run(tier="quick", seed=0):
     b = Budget(12 if tier == "quick" else 240)
     r = run_histories(seed + 8, b, n_hist=40 if tier == "quick" else 2000, length=14 if tier == "quick" else 40, weights={"init": 3, "remove": 2, "rekey": 3, "cache": 5, "doc": 1})
     r.update(scope="random histories (length 14 quick / 40 thorough) of {init, doc edit/reset, file, remove, clear/reset, re-key by 6 routes, move, clone, handle copy/deepcopy/pickle/reopen/drop, "
                    "update_cache/restart/delete cache} over 2 projects, 4 keys x 8 values; model equality, check(), listing==len==membership, no temp files, live handles follow -- after every step", rule=RULE)
+    from .common import script_header
+    for key, msg in stale_cache_scenarios():
+        r["failures"].append({"key": key, "description": msg, "script": script_header() + "sys.path.insert(0, '/verif')\nfrom pybound.c08 import stale_cache_scenarios\nr = stale_cache_scenarios()\nassert not r, r\n"})
+    r["evaluations"] = r.get("evaluations", 0) + 16
+    r["scope"] += "; plus 16 stale-cache scenarios (workspace changed by a session that did not update the cache file x first call of the fresh session)"
     return r
